@@ -162,6 +162,9 @@ func init() {
 							l1 = append(l1, tarEntry{Name: name, Type: tar.TypeSymlink, Mode: 0777, Linkname: out})
 						case "rel":
 							l1 = append(l1, tarEntry{Name: name, Type: tar.TypeSymlink, Mode: 0777, Linkname: fmt.Sprintf("n%d", to)})
+						case "relup":
+							// climbs exactly to the image root and comes down again: legal, must be followed
+							l1 = append(l1, tarEntry{Name: name, Type: tar.TypeSymlink, Mode: 0777, Linkname: fmt.Sprintf("../%s/n%d", dir, to)})
 						case "abs":
 							l1 = append(l1, tarEntry{Name: name, Type: tar.TypeSymlink, Mode: 0777, Linkname: fmt.Sprintf("/%s/n%d", dir, to)})
 						case "abs2":
